@@ -21,7 +21,7 @@ import (
 var Check = &mc.Check{
 	ID:    "C01",
 	Level: "model_checking",
-	Rule: "request descriptions = method x version x framing{none,CL,chunked,chunked+trailer,CL+Expect} x body length{0,1,2,4095..4097,8191..8193,65537} x chunk partition x CL-name spelling x near-miss framing name x extra header shape{plain,folded,empty,40 headers} x close; " +
+	Rule: "request descriptions = method x version x framing{none,CL,chunked,chunked+trailer,CL+Expect,chunked+Expect} x body length{0,1,2,4095..4097,8191..8193,65537} x chunk partition x CL-name spelling x near-miss framing name x extra header shape{plain,folded,empty,40 headers} x close; " +
 		"singles: full (pruned) product; pairs/triples: all ordered tuples over a reduced alphabet; each stream delivered whole, byte-wise and cut at every message boundary -1/0/+1, buffered and streaming; " +
 		"non-trivial = streams with a body, a fold, a near-miss name or more than one request",
 	Run:    run,
@@ -299,6 +299,10 @@ func singles(thorough bool) []wire.Spec {
 								s.Framing = wire.FChunkedTrailer
 								s.TENameMixed = p == wire.PHexUpper
 								add(s)
+								if p == wire.POne || p == wire.PThree {
+									s.Framing = wire.FChunkedExpect
+									add(s)
+								}
 							}
 						}
 					}
@@ -328,6 +332,8 @@ func reduced() []wire.Spec {
 		S("POST", wire.FChunkedTrailer, 8192),
 		S("POST", wire.FCLExpect, 4095),
 		S("GET", wire.FCL, 2),
+		S("POST", wire.FChunkedExpect, 3),
+		S("PUT", wire.FChunkedExpect, 8193),
 	}
 	with := func(s wire.Spec, f func(*wire.Spec)) wire.Spec { f(&s); return s }
 	rs = append(rs,
